@@ -158,7 +158,7 @@ def judge(t, tw, s, sw, vals, rng, acc=None):
                 break
     # substitution values: plain ones, partial dicts, and values carrying the `...` / Nil
     # placeholders at every position (substitution gives them a meaning of their own)
-    svals = list(vals[:12])
+    svals = list(vals[:12]) + long_values(t)
     for w in M.witnesses(t)[:2]:
         svals += partials(w)[:8] + with_placeholders(w)[:60]
     for v in dedup(svals):
@@ -202,7 +202,11 @@ def long_values(t):
         return []
     import uuid
     bad = uuid.UUID("51c2f442-bf61-11f1-b9da-02fc00000001") if t[1][1][0] == "uuid4" else ("q" if not isinstance(ws[0], str) else 0)
-    return [[ws[0]] * 70, [ws[0]] * 66 + [bad] + [ws[0]] * 3]
+    out = [[ws[0]] * 70, [ws[0]] * 66 + [bad] + [ws[0]] * 3]
+    if isinstance(ws[0], float) and ws[0] == ws[0] and ws[0] not in (0.0, float("inf"), float("-inf")):
+        # a member inside math.isclose's band around the pinned member, not equal to it
+        out += [[ws[0] * (1 + 4e-10)], [ws[0], ws[0] * (1 - 4e-10)]]
+    return out
 
 
 def deep_pairs():
